@@ -1,1 +1,205 @@
-/-! C01 — property theorems (none yet). -/
+import Req.Lemmas.Pct
+import Req.Lemmas.Query
+import Req.Client.Url
+/-!
+C01 — request fidelity: property theorems about the models of the request-building pipeline.
+
+* `escape_roundtrip`, `pathEscape_no_structure`, `queryEscape_no_structure`: Go's percent-encoding
+  is injective (decodable) and its output contains no byte that has a structural meaning in a
+  path, a query, a request line or a header block.
+* `path_param_segments`: substituting path parameters (request-level and client-level maps, any
+  iteration order, any template, any values) never adds a `/`, `?`, `#`, space, CR, LF, NUL …:
+  a value cannot add a path segment, a query, a fragment or a line.
+* `query_merge_spec`: an origin parsing the final raw query reads the pairs of the caller's raw
+  query followed by exactly the merged parameter maps (request keys override client keys), sorted
+  by key — nothing dropped, duplicated or altered.
+-/
+namespace Req.Props.C01
+open Req.Proto Req.Pct Req.Url Req.BStr Req.Query
+
+/-! ### percent-encoding -/
+
+/-- **escape_roundtrip**: for every mode Go decodes its own escapes back to the input (host and
+zone excluded: there Go itself rejects `%XX` of an ASCII byte). -/
+theorem escape_roundtrip (m : Mode) (hm1 : m ≠ .host) (hm2 : m ≠ .zone) (s : Bytes) :
+    unescape m (escape m s) = some s :=
+  unescape_escape m hm1 hm2 s
+
+example : unescape .pathSegment (pathEscape [97, 47, 98, 32, 195, 188, 13, 10]) =
+    some [97, 47, 98, 32, 195, 188, 13, 10] := by decide
+
+/-- escaping is injective: two values can never be confused on the wire. -/
+theorem escape_injective (m : Mode) (hm1 : m ≠ .host) (hm2 : m ≠ .zone) (s t : Bytes)
+    (h : escape m s = escape m t) : s = t := by
+  have hs := escape_roundtrip m hm1 hm2 s
+  have ht := escape_roundtrip m hm1 hm2 t
+  rw [h, ht] at hs
+  exact (Option.some.inj hs).symm
+
+/-- bytes with a structural meaning in a URL path, a request line or a header block:
+`/ ? # { } ; ,`, space, control bytes (CR, LF, NUL, …), DEL, and everything non-ASCII. -/
+def pathStructural (b : UInt8) : Bool :=
+  b == 47 || b == 63 || b == 35 || b == 123 || b == 125 || b == 59 || b == 44 || b ≤ 32 || b ≥ 127
+
+def pathSafe (b : UInt8) : Bool :=
+  b == 37 || isUpperHexDigit b || !shouldEscape b .pathSegment
+
+set_option maxRecDepth 100000 in
+theorem pathSafe_not_structural (b : UInt8) : (!pathSafe b || !pathStructural b) = true :=
+  Req.U8.all (fun b => !pathSafe b || !pathStructural b) (by decide) b
+
+/-- **pathEscape_no_structure**: `url.PathEscape` never outputs `/ ? # { } ; ,`, a space, a
+control byte (CR, LF, NUL …), DEL or a non-ASCII byte. -/
+theorem pathEscape_no_structure (s : Bytes) : ∀ b ∈ pathEscape s, pathStructural b = false := by
+  intro b hb
+  have hsafe : pathSafe b = true := by
+    unfold pathEscape at hb
+    unfold pathSafe
+    rcases mem_escape hb with h | h | h | h
+    · simp [h]
+    · simp [h]
+    · exact absurd h.2 (by decide)
+    · simp [h.2]
+  have h2 := pathSafe_not_structural b
+  rw [hsafe] at h2
+  simpa using h2
+
+example : pathEscape [46, 46, 47, 13, 10, 123, 105, 100, 125] =
+    [46, 46, 37, 50, 70, 37, 48, 68, 37, 48, 65, 37, 55, 66, 105, 100, 37, 55, 68] := by decide
+
+/-- **queryEscape_no_structure**: `url.QueryEscape` never outputs `& = # ? /`, a space, a control
+byte, DEL or a non-ASCII byte (`+` stands for a space). -/
+theorem queryEscape_no_structure (s : Bytes) : ∀ b ∈ queryEscape s, queryStructural b = false :=
+  queryEscape_not_structural s
+
+example : queryEscape [97, 38, 98, 61, 99, 32, 35] = [97, 37, 50, 54, 98, 37, 51, 68, 99, 43, 37, 50, 51] := by
+  decide
+
+/-! ### path parameters -/
+
+theorem count_append (c : UInt8) (a b : Bytes) : count c (a ++ b) = count c a + count c b := by
+  simp [count, List.countP_append]
+
+theorem count_cons (c x : UInt8) (a : Bytes) :
+    count c (x :: a) = count c a + (if x == c then 1 else 0) := by
+  simp [count, List.countP_cons]
+
+theorem count_eq_zero_of_not_mem (c : UInt8) (s : Bytes) (h : ∀ b ∈ s, b ≠ c) : count c s = 0 := by
+  unfold count
+  rw [List.countP_eq_zero]
+  intro b hb
+  simpa using h b hb
+
+theorem replaceAux_count (c : UInt8) (old new : Bytes) (hnew : count c new = 0) :
+    ∀ (s : Bytes) (skip : Nat), count c (replaceAux old new skip s) ≤ count c s := by
+  intro s
+  induction s with
+  | nil => intro skip; cases skip <;> simp [replaceAux]
+  | cons x t ih =>
+    intro skip
+    cases skip with
+    | succ k =>
+      simp only [replaceAux]
+      have := ih k
+      rw [count_cons]
+      omega
+    | zero =>
+      simp only [replaceAux]
+      split
+      · rw [count_append, hnew, count_cons]
+        have := ih (old.length - 1)
+        omega
+      · rw [count_cons, count_cons]
+        have := ih 0
+        omega
+
+theorem substOne_count (c : UInt8) (hc : pathStructural c = true) (tmpl : Bytes)
+    (pv : Bytes × Bytes) : count c (substOne tmpl pv) ≤ count c tmpl := by
+  unfold substOne replaceAll
+  split
+  · exact Nat.le_refl _
+  · apply replaceAux_count
+    apply count_eq_zero_of_not_mem
+    intro b hb heq
+    have := pathEscape_no_structure pv.2 b hb
+    rw [heq, hc] at this
+    exact Bool.noConfusion this
+
+theorem foldl_substOne_count (c : UInt8) (hc : pathStructural c = true) (ps : PMap) :
+    ∀ tmpl : Bytes, count c (ps.foldl substOne tmpl) ≤ count c tmpl := by
+  induction ps with
+  | nil => intro tmpl; exact Nat.le_refl _
+  | cons p ps ih =>
+    intro tmpl
+    simp only [List.foldl_cons]
+    exact Nat.le_trans (ih _) (substOne_count c hc tmpl p)
+
+/-- **path_param_segments**: for EVERY template, every request-level and client-level parameter
+map in any iteration order and every value, substitution never increases the number of `/`
+(path segments), `?` (queries), `#` (fragments), spaces, CR, LF, NUL or any other structural
+byte: a path-parameter value cannot add a segment, a query, a fragment, a header line or a second
+request. (It can lower a count only when a KEY — part of the template — contains such a byte.) -/
+theorem path_param_segments (tmpl : Bytes) (rp cp : PMap) (c : UInt8)
+    (hc : pathStructural c = true) : count c (substParams tmpl rp cp) ≤ count c tmpl := by
+  unfold substParams
+  exact Nat.le_trans (foldl_substOne_count c hc cp _) (foldl_substOne_count c hc rp tmpl)
+
+/-- number of path segments = number of `/` + 1 -/
+theorem path_param_no_new_segment (tmpl : Bytes) (rp cp : PMap) :
+    count 47 (substParams tmpl rp cp) ≤ count 47 tmpl :=
+  path_param_segments tmpl rp cp 47 (by decide)
+
+/-- non-vacuity: `/u/{id}/x` with id = `a/b?c#d` + CR LF keeps its three slashes. -/
+example : substParams [47, 117, 47, 123, 105, 100, 125, 47, 120]
+    [([105, 100], [97, 47, 98, 63, 99, 35, 100, 13, 10])] [] =
+    [47, 117, 47, 97, 37, 50, 70, 98, 37, 51, 70, 99, 37, 50, 51, 100, 37, 48, 68, 37, 48, 65, 47, 120] := by
+  decide
+
+/-! ### query merge -/
+
+/-- the pairs the caller described through the client-level and request-level maps: request keys
+override client keys, keys sorted bytewise, values in the order given. -/
+def specPairs (cq rq : QMap) : List (Bytes × Bytes) :=
+  (isortBy (fun a b => le a.1 b.1) (mergedQuery cq rq)).flatMap fun kv => kv.2.map fun v => (kv.1, v)
+
+theorem encodeValues_eq (m : QMap) :
+    encodeValues m = join [38]
+      (((isortBy (fun a b => le a.1 b.1) m).flatMap fun kv => kv.2.map fun v => (kv.1, v)).map
+        fun p => encodePair p.1 p.2) := by
+  unfold encodeValues
+  congr 1
+  simp [List.map_flatMap, List.map_map, Function.comp_def]
+
+/-- **query_merge_spec**: an origin that parses the final raw query reads the pairs of the raw
+query of the URL, followed by exactly `specPairs` — every key/value of the merged maps once, each
+decoded to the caller's bytes, request-level keys replacing client-level keys. (`none` on both
+sides when the caller's own raw query has a malformed escape.) -/
+theorem query_merge_spec (raw : Bytes) (cq rq : QMap) :
+    parseQuery (mergeRawQuery raw cq rq) = (parseQuery raw).map (· ++ specPairs cq rq) := by
+  unfold mergeRawQuery
+  simp only
+  split
+  next hq =>
+    have : specPairs cq rq = [] := by
+      unfold specPairs
+      have : mergedQuery cq rq = [] := by simpa using hq
+      rw [this]; simp [isortBy]
+    rw [this]
+    cases parseQuery raw <;> simp
+  next hq =>
+    split
+    next hraw =>
+      have : raw = [] := by simpa using hraw
+      subst this
+      rw [encodeValues_eq, parseQuery_join, parseQuery_nil]
+      rfl
+    next hraw =>
+      rw [List.append_assoc, List.singleton_append, parseQuery_append, encodeValues_eq,
+        parseQuery_join]
+      cases parseQuery raw <;> rfl
+
+/-- non-vacuity: raw `x=1`, client {a:[1], b:[2]}, request {a:[z, ' &']} . -/
+example : mergeRawQuery [120, 61, 49] [([97], [[49]]), ([98], [[50]])] [([97], [[122], [32, 38]])] =
+    [120, 61, 49, 38, 97, 61, 122, 38, 97, 61, 43, 37, 50, 54, 38, 98, 61, 50] := by decide
+
+end Req.Props.C01
